@@ -752,6 +752,11 @@ pub fn generate_code(context: &Context) -> Result<u32, &'static str>
             "[ref: 21] Num. inserted reference(s): {}",
             reference_updates.num_inserted_references
         );
+
+        if reference_updates.failure
+        {
+            return Err("One or more files could not be updated");
+        }
     }
     else
     {
